@@ -13,7 +13,8 @@ def ipcbed():
 STAGE_LIST = [
     simple.Stage("client-death", ipcbed, ["--mode", "c03-client", "--stride", "7"], quick=120, thorough=800, timeout=900, chunk=8),
     simple.Stage("handshake-prefix", ipcbed, ["--mode", "c03-prefix"], quick=200, thorough=200, timeout=900, chunk=10),
-    simple.Stage("server-death", ipcbed, ["--mode", "c03-server", "--stride", "7"], quick=176, thorough=1240, timeout=1800, chunk=6),
+    simple.Stage("server-death-at-file-removals", ipcbed, ["--mode", "c03-server-fs"], quick=480, thorough=480, timeout=1800, chunk=8),
+    simple.Stage("server-death", ipcbed, ["--mode", "c03-server", "--stride", "7"], quick=352, thorough=2560, timeout=1800, chunk=6),
 ]
 THOROUGH_ARGS = {"client-death": ["--mode", "c03-client", "--stride", "1"], "server-death": ["--mode", "c03-server", "--stride", "1"]}
 STAGES = {s.name: s.builder for s in STAGE_LIST}
@@ -23,7 +24,10 @@ RULE = ("crash-point enumeration with a ptrace tracer. client death: 4 scenarios
         "(thorough) stop of the ~190 per scenario; afterwards the server's callback automaton, qb_ipcs_stats, "
         "/proc/<pid>/fd, /dev/shm and a control client are audited. handshake-prefix: every prefix 0..24 of a valid "
         "handshake x {exit, stall, byte-by-byte, exit while the server sits in a slow accept callback} x both transports (exhaustive). server death: the server runs under "
-        "the tracer and is killed at the n-th stop after the first connection was created; the surviving client logs "
+        "the tracer and is killed at the n-th stop after the first connection was created (8 scenarios: transport x "
+        "events x the server itself disconnecting the survivor at the end) and, exhaustively in both tiers, at every "
+        "entry and exit stop of unlink/unlinkat/rmdir/ftruncate (addressed by occurrence number, stable between runs); "
+        "the surviving client logs "
         "latency and result of recv(300), sendv_recv(500), sendv_recv(-1), event_recv(-1), later send/recv and "
         "disconnect; non-empty files of the dead server under /dev/shm are listed after qb_ipcc_disconnect. distinct by "
         "(scenario, stop number, syscall number at the stop)")
